@@ -36,6 +36,8 @@ DEFAULT = {
     "nplan": (2, 6),
     "p_stop_bid_mid": 0.0,    # driver stops/aborts a framer mid-run
     "order": False,
+    "mark_bids": False,       # a recorder right before every bid: tag "bid|ctl|who|framer"
+    "p_bid_period": 0.0,
 }
 
 CSHARES = [".c0", ".c1", ".c2", ".c3"]
@@ -177,7 +179,13 @@ def gen_framer(rng, f, name, sched, auxnames, others, slaves, is_aux=False, cond
         if others and rng.random() < f["p_bids"]:
             ctl = rng.choice(["stop", "start", "run", "abort", "ready", "stop", "start"])
             who = rng.choice(others + ["me"])
-            st.append({"v": "bid", "ctl": ctl, "who": [who], "ctx": rng.choice([None, "enter", "exit", "recur"])})
+            bctx = rng.choice([None, "enter", "exit", "recur"])
+            nb = 2 if rng.random() < 0.3 else 1       # sometimes two bids in a row: the last one wins
+            for _ in range(nb):
+                if f["mark_bids"]:
+                    st.append(P.rec("bid|%s|%s|%s" % (ctl, who, name), bctx or "enter"))
+                st.append({"v": "bid", "ctl": ctl, "who": [who], "ctx": bctx})
+                ctl = rng.choice(["stop", "start", "run", "abort", "ready"])
         if slaves and rng.random() < f["p_fiat"]:
             st.append({"v": rng.choice(["ready", "start", "run", "stop", "abort"]), "who": rng.choice(slaves), "ctx": None})
         fr["stmts"] = st
@@ -242,6 +250,8 @@ def gen_program(rng, f):
             for sh, v in plan[pt]:
                 st.append({"v": "put", "data": {"value": v}, "dst": sh, "ctx": None})
             if midbid and midbid[0] == pt:
+                if f["mark_bids"]:
+                    st.append(P.rec("bid|%s|%s|drv" % (midbid[1], midbid[2]), "enter"))
                 st.append({"v": "bid", "ctl": midbid[1], "who": [midbid[2]], "ctx": None})
         st.append({"v": "repeat", "n": t - prev})
         dframes.append(P.frame("d%d" % i, st))
@@ -252,10 +262,13 @@ def gen_program(rng, f):
         for sh, v in plan[pt]:
             st.append({"v": "put", "data": {"value": v}, "dst": sh, "ctx": None})
         if midbid and midbid[0] == pt:
+            if f["mark_bids"]:
+                st.append(P.rec("bid|%s|%s|drv" % (midbid[1], midbid[2]), "enter"))
             st.append({"v": "bid", "ctl": midbid[1], "who": [midbid[2]], "ctx": None})
     st.append({"v": "repeat", "n": max(1, ticks - prev)})
     dframes.append(P.frame("dl", st))
-    dframes.append(P.frame("dfin", [{"v": "bid", "ctl": "stop", "who": ["all"], "ctx": None}]))
+    dframes.append(P.frame("dfin", ([P.rec("bid|stop|all|drv", "enter")] if f["mark_bids"] else []) +
+                           [{"v": "bid", "ctl": "stop", "who": ["all"], "ctx": None}]))
     drv = P.framer("drv", dframes, sched="active", order="front")
     inits = [[sh, {"value": rng.randint(0, 2)}] for sh in CSHARES] + [[sh, {"value": 0}] for sh in NSHARES]
     prog = P.program([P.house("h", [drv] + framers, inits=inits)], period="0.125")
